@@ -195,6 +195,7 @@ def _b_events(args):
 
 def run(ctx, replay=None):
     lib()
+    ctx.notes["reflectors_certified_by_TLC"] = E.check_against_tlc(ctx)
     thorough = ctx.tier == "thorough"
     u = lib().utils
     ctx.assumptions += [
